@@ -8,7 +8,7 @@ CONSTANTS
   DirectMap = 1000
   EnvK = 1
   EnvC = 0
-  HoleCap = 1
+  HoleCap = 0
   Ids = {1, 2}
   Sizes = {3}
   Aligns = {1}
